@@ -359,6 +359,17 @@ pub fn check_trait<S: Cancel + crate::attacks::Attack>(c: &Case, ctx: &mut CaseC
     ctx.check(batch == and, sig(P, S::NAME, "batch_check", if batch { "accepts_what_single_checks_reject" } else { "rejects_what_single_checks_accept" }), || {
         format!("variant {variant} {note}: batch={batch}, per-label checks={single:?}, proofs={}/{}", proofs.len(), ng)
     })?;
+    // Code-based schemes at toy sizes: a proof moved to another label (variants 5, 6) verifies there whenever
+    // the Fiat-Shamir positions of the two transcript states coincide (probability n^-t); with all claims
+    // true that is not a wrong decision. The ground-truth oracle is asserted only when that chance is <= 2^-40.
+    if all_true && list_changed && matches!(variant, 5 | 6) {
+        if let Some(lp) = S::transcript_collision_log2(&sess.keys, &sess.comms[0]) {
+            if lp > -40.0 {
+                ctx.label("toy_soundness_not_asserted");
+                return Ok(());
+            }
+        }
+    }
     ctx.check(batch == expected, sig(P, S::NAME, "batch_check", if batch { "false_batch_accepted" } else { "true_batch_rejected" }), || {
         format!("variant {variant} {note}: batch={batch}, expected={expected} (all claims true: {all_true}, proof list changed: {list_changed})")
     })?;
